@@ -73,6 +73,10 @@ def load(mir_path, src_root):
         pm = re.match(r'(.*?(?:promoted\[\d+\]|\{constant#\d+\})): (.*)$', m.group(1), re.S)
         name, ty = (pm.group(1), pm.group(2)) if pm else m.group(1).rsplit(': ', 1)
         f = Fn(name, '() -> ' + ty, m.group(2)); consts[name] = f
+    for m in re.finditer(r'^static ([\w:]+): ([^\n=]*?) = \{\n(.*?)^\}', txt, re.S | re.M):       # immutable statics (a `static mut` is state and stays opaque)
+        f = Fn('static ' + m.group(1), '() -> ' + m.group(2).strip(), m.group(3)); consts['static ' + m.group(1).split('::')[-1]] = f
+    for m in re.finditer(r'^static ([\w:]+): ([^\n=]*?) = (const [^\n]*);$', txt, re.M):
+        f = Fn('static ' + m.group(1), '() -> ' + m.group(2).strip(), '    bb0: {\n        _0 = %s;\n        return;\n    }\n' % m.group(3)); consts['static ' + m.group(1).split('::')[-1]] = f
     for m in re.finditer(r'^const ([^\n=]*?): ([^\n=]*?) = (const [^\n]*);$', txt, re.M):      # constants whose initialiser is a literal are printed on one line
         f = Fn(m.group(1).strip(), '() -> ' + m.group(2).strip(), '    bb0: {\n        _0 = %s;\n        return;\n    }\n' % m.group(3)); consts[m.group(1).strip()] = f
     allocs = {}
@@ -196,10 +200,13 @@ def get_path(v, path):
                 r = HOOKS['field'](v[1], v[2], step[1])
                 if r is None: raise Unsupported('field of symbolic variant ' + v[2])
                 v = r; continue
-            if v[0] == 'tup': v = v[1][step[1]]
-            elif v[0] == 'adt': v = v[3][step[1]]
-            elif v[0] == 'closure': v = v[2][step[1]]
-            else: raise Unsupported('field of ' + str(v)[:60])
+            try:
+                if v[0] == 'tup': v = v[1][step[1]]
+                elif v[0] == 'adt': v = v[3][step[1]]
+                elif v[0] == 'closure': v = v[2][step[1]]
+                else: raise Unsupported('field of ' + str(v)[:60])
+            except (IndexError, TypeError):
+                raise Unsupported('field %s of a value the model keeps opaque: %s' % (step[1], str(v)[:60]))
         elif step[0] == 'dc':
             if is_expr(v) and HOOKS['field']: v = ('symdc', v, step[1]); continue
             if v[0] != 'adt' or v[2] != step[1]: raise Unsupported('downcast %s of %s' % (step[1], str(v)[:60]))
@@ -467,6 +474,8 @@ class Exec:
         m = re.match(r'\{(alloc\d+): &(.*)\}$', s)
         if m:
             nm = self.static_names.get(m.group(1), m.group(1))
+            ks = [k for k in self.consts if k == 'static ' + nm or k.endswith('::' + nm) and k.startswith('static ')]
+            if len(ks) == 1: return ('ref', st.new_cell(self.eval_const_fn(st, self.consts[ks[0]])), ())      # an immutable static of the crate: its initialiser's MIR is evaluated
             return ('ref', st.new_cell(('extern_static', nm, m.group(2))), ())
         m = re.search(r'(\S*promoted\[\d+\])$', s)
         if m:
@@ -700,6 +709,7 @@ class Exec:
         if ty == '()': return [UNIT]
         if ty in ('usize', 'u64', 'u32', 'u8'):
             v = Int(nm); st.pc.append(And(v >= 0, v < 2 ** {'usize': 64, 'u64': 64, 'u32': 32, 'u8': 8}[ty])); return [v]
+        if ty.split('::')[-1] in ('OffsetDateTime',): return [('instant', Int(nm), IntVal(0))]      # any instant (the model's value for time::OffsetDateTime)
         m = re.match(r'(?:std::result::|core::result::)?Result<(.*)>$', ty)
         if m:
             parts = split_top(m.group(1))
@@ -734,7 +744,8 @@ class Exec:
                     r_ = s2.store.get(s2.stack[depth]['locals'].get(p_))
                     if isinstance(r_, tuple) and r_[0] == 'ref':
                         n_ = self.stats['havoc_n'] = self.stats.get('havoc_n', 0) + 1
-                        s2.store[r_[1]] = set_path(s2.store[r_[1]], r_[2], adt('Havocked', None, Int('havocked_state%d' % n_)))
+                        try: s2.store[r_[1]] = set_path(s2.store[r_[1]], r_[2], adt('Havocked', None, Int('havocked_state%d' % n_)))
+                        except (IndexError, TypeError, KeyError): s2.store[r_[1]] = adt('Havocked', None, Int('havocked_state%d' % n_))      # the path does not exist in the value as modelled: the whole object is unknown
                 outs += self.ret(s2, v)
             return outs
         return None
